@@ -251,7 +251,11 @@ func sliceRelevant(hyps []string, goal string, vc *VC) []string {
 		hs[i] = symsOf(h)
 	}
 	reach := map[string]bool{}
-	for _, t := range symsOf(goal) {
+	gs := symsOf(goal)
+	if len(gs) == 0 {
+		return hyps // goal "false": the hypotheses themselves must be contradictory
+	}
+	for _, t := range gs {
 		reach[t] = true
 	}
 	keep := make([]bool, len(hyps))
